@@ -67,6 +67,8 @@ def handle(case):
     elif vs:
         # the same call as a later condition: every variable is already bound (by v >= 0) when the call is evaluated
         kinds += [("function_after_binding", f), ("predicate_after_binding", P)]
+        # the number-valued function as an operand of a comparison: g(...) == 0
+        kinds += [("function_int_equals_zero", FUNS[(n, ndef, "int")])]
     if style == "plain" and n >= 2 and not (ndef >= 1 and ndef < 1):
         try:
             # the base predicate is used first (concretely), then the derived one with the call shape under test
@@ -95,6 +97,8 @@ def handle(case):
             else:
                 del LOG[:]
                 order = sorted(V)
+                if kind == "function_int_equals_zero":
+                    r = (r == 0)
                 if kind.endswith("_after_binding"):
                     q = an(set_of([V[i] for i in order], *[V[i] >= 0 for i in order], r))
                     sols = [[row[V[i]] for i in order] for row in q.evaluate()]
